@@ -143,7 +143,7 @@ def hyp_sets(ctx, n, generated):
         config, codec, hexbm, pds, extra, gen = v
         ncar = len(refcodec.pack_pds([(int(k[3:]), x) for k, x in pds.items()]))
         ctx.case(key=harness.digest((config if gen else 0, codec, hexbm, pds, extra)), nontrivial=len(pds) >= 2 or ncar >= 2,
-                 labels=['hyp', f'carriers-needed={ncar}', 'cfg:generated' if gen else 'cfg:packaged',
+                 labels=['hyp', f'carriers-needed={ncar}', 'carriers-needed>=2' if ncar >= 2 else 'carriers-needed<2', 'cfg:generated' if gen else 'cfg:packaged',
                          'has-empty-value' if any(x == '' for x in pds.values()) else 'no-empty-value'])
         if len(ctx.samples) < 4:
             ctx.sample({'config': gen_iso.describe(config) if gen else 'packaged', 'codec': codec,
@@ -152,7 +152,7 @@ def hyp_sets(ctx, n, generated):
         if res:
             ctx.fail(res[0], {'config': config if gen else None, 'codec': codec, 'hex': hexbm, 'pds': pds, 'extra': extra}, res[1])
     harness.drive(ctx, cases(ctx.tier, generated), body, n, salt='gen' if generated else 'pkg')
-    ctx.floor('carriers-needed=2', 0.03, 'hyp')
+    ctx.floor('carriers-needed>=2', 0.04, 'hyp')
 
 
 def tasks(tier, seed):
